@@ -2,10 +2,14 @@
    PARTIAL: the whole-reader statement "a core document reads alike under the four flag sets"
    is decided by the correspondence run (the model is run under each flag set against the
    matching build and the four observations are compared); what is proved here is that the
-   flag-dependent GENERATED items and the escape decoder cannot distinguish core input. *)
+   flag-dependent GENERATED items and the escape decoder cannot distinguish core input; and, for WHOLE DOCUMENTS of
+   the reader fragment of Properties_C03 (integers, keywords, lists, vectors, any trivia, any size and nesting below the
+   equality's depth cap), that any two of the four builds -- with any options -- read the document to values denoting
+   the same term, equal under either build's equality (C18_builds_read_equal_partial). *)
 From Coq Require Import ZArith NArith List Bool.
 From Coq.Strings Require Import Byte.
 From Verif Require Import Lanes Common Values Scan Numbers Tokens Reader Configs FlagProofs.
+From Verif Require Import Equality RoundTrip RoundTripWs RoundTripEq.
 Import ListNotations.
 
 Theorem C18_dispatch_partial : forall c b, In c all_cfgs ->
@@ -33,6 +37,17 @@ Proof. exact type_order_agree. Qed.
 Theorem C18_flag_free_items : common_items_agree = true.
 Proof. exact common_items. Qed.
 
+
+Theorem C18_builds_read_equal_partial : forall c1 c2 o1 o2 m a, In c1 all_cfgs -> In c2 all_cfgs -> awf a ->
+  (tdepth (erase a) <= max_depth)%nat -> slice m 0 (List.length (prg a)) = prg a ->
+  exists r1 s1 n1 r2 s2 n2,
+    run_doc c1 o1 m (N.of_nat (List.length (prg a))) = Ret r1 s1 /\ r_value r1 = Some n1 /\ r_err r1 = EOk /\
+    run_doc c2 o2 m (N.of_nat (List.length (prg a))) = Ret r2 s2 /\ r_value r2 = Some n2 /\ r_err r2 = EOk /\
+    denotes c1 (erase a) n1 /\ denotes c1 (erase a) n2 /\
+    equal c1 no_ext_equal n1 n2 = true /\ equal c2 no_ext_equal n1 n2 = true.
+Proof. exact builds_read_equal. Qed.
+
+Print Assumptions C18_builds_read_equal_partial.
 Print Assumptions C18_dispatch_partial.
 Print Assumptions C18_single_char_partial.
 Print Assumptions C18_escapes_partial.
